@@ -112,6 +112,7 @@ type amlStmt struct {
 	W2   int       `json:"w2,omitempty"`
 	Op   string    `json:"op,omitempty"` // term1 statements
 	V    uint16    `json:"v,omitempty"`  // acquire timeout
+	Obj  *amlObj   `json:"obj,omitempty"` // decl: a named object declared inside the method (name opregion mutex event field)
 }
 
 type amlFieldElem struct {
@@ -356,6 +357,8 @@ func (s amlStmt) encode() []byte {
 	case "while":
 		body := append(s.E.encode(), amlEncodeStmts(s.Body)...)
 		return append([]byte{0xa2}, amlPkg(body, s.W)...)
+	case "decl":
+		return s.Obj.encode()
 	case "noop":
 		return []byte{0xa3}
 	case "break":
